@@ -128,7 +128,9 @@ func Run(cfg Config) (int, error) {
 				Keypers: shdb.EncodeAddresses(ks), Threshold: 2, Started: true, ActivationBlockNumber: int64(100 * (c + 1))})
 		}
 		srv.SetState(st)
-		nextEon := int64(1)
+		// eon numbers are unique but complete in any order: a later tick may carry a lower eon
+		eonPool := r.Perm(24)
+		nextEon := 0
 		pkCounter := 0
 		ticks := 1 + r.Intn(4)
 		for tk := 0; tk < ticks && len(res.Violations) == 0; tk++ {
@@ -147,7 +149,7 @@ func Run(cfg Config) (int, error) {
 			exps := []exp{}
 			for p := 0; p < pending; p++ {
 				c := r.Intn(ncfg)
-				eon := nextEon
+				eon := int64(1 + eonPool[nextEon%len(eonPool)])
 				nextEon++
 				pkCounter++
 				pk := []byte(fmt.Sprintf("eon-public-key-%d", pkCounter))
